@@ -10,10 +10,10 @@
 package main
 
 import (
-	"path/filepath"
-	"os"
 	"encoding/json"
 	"fmt"
+	"os"
+	"path/filepath"
 	"runtime"
 	"runtime/debug"
 	"sort"
@@ -154,7 +154,6 @@ func parallelConfigs(n int, deadline time.Time, fn func(i int)) (done int) {
 	return next
 }
 
-
 // concurrentCases folds in what the concurrent part (checks/c13conc, run by
 // run.sh immediately before this program) explored; its violations were
 // reported by that program itself.
@@ -178,7 +177,7 @@ func concurrentCases(run *common.Run) *part {
 	ex, _ := ev.Coverage["exhaustive"].(bool)
 	p := &part{Name: "concurrent (2 selectors || 1 updater, scheduler engine)", States: num("states"), Transitions: num("transitions"),
 		Traces: num("executions"), Evaluations: num("executions"), NonTrivial: num("distinct_nontrivial"), Exhaustive: ex,
-		Rule: "every interleaving (fingerprint-pruned, unbounded) of two selecting goroutines and one updater on the instrumented selector packages; all random draws enumerated",
+		Rule:   "every interleaving (fingerprint-pruned, unbounded) of two selecting goroutines and one updater on the instrumented selector packages; all random draws enumerated",
 		Bounds: map[string]any{"per_scenario": ev.Coverage["per_scenario"]}, Assumptions: ev.Assume}
 	if s, ok := ev.Coverage["samples"].([]any); ok {
 		p.Samples = s
